@@ -193,6 +193,14 @@ class ReconnH(explore.Harness):
                 # close()/shutdown() while the peer's RST for the connection in use (or being set up) sits in the kernel, not yet seen by the loop
                 if self.n_closes == 0 and any(c.client_open and c.peer_open and c.transport is not None for c in self.net.conns):
                     m.append(t)
+            elif t == "drop+close":
+                # the peer closes / resets the connection in use and the application closes the pairing k loop iterations later (code that
+                # reacts to the same disconnect, a task that was already runnable)
+                if self.n_closes == 0 and self._current_conn() is not None:
+                    for how in ("drop", "reset"):
+                        for what in ("close", "shutdown"):
+                            for k in (0, 1, 2, 3):
+                                m.append(f"{how}+{what}@{k}")
             elif t == "double-nudge":
                 # two reconnect nudges k loop iterations apart (two announcements in a burst, an announcement racing a caller)
                 for second in ("zc-same", "ensure"):
@@ -275,6 +283,20 @@ class ReconnH(explore.Harness):
             c = next(c for c in self.callers if not c["task"].done())
             c["cancelled_by_harness"] = True
             c["task"].cancel()
+        elif k.startswith("drop+") or k.startswith("reset+"):
+            how, _, rest = k.partition("+")
+            what, _, n = rest.partition("@")
+            c = self._current_conn()
+            self.env_marks.append((now, "drop"))
+            (c.peer_close if how == "drop" else c.peer_reset)()
+            for _ in range(int(n)):
+                if self.loop.has_ready():
+                    self.loop.run_batch()
+            self.n_closes += 1
+            self.closed_at = now
+            if what == "shutdown":
+                self.shutdown_at = now
+            self.close_tasks.append(self.loop.create_task(self.pairing.shutdown() if what == "shutdown" else self.pairing.close()))
         elif k in ("close+rst", "shutdown+rst"):
             c = [c for c in self.net.conns if c.client_open and c.peer_open and c.transport is not None][-1]
             c.peer_reset_arrives()
